@@ -175,7 +175,9 @@ let gen_history st : int * int * int * xop list =
      | 0 | 1 -> let n = rint st 8 in add (XCreate (n, (if rint st 7 = 0 then -1 else rint st 6))); files := n :: !files
      | 2 -> let l = List.sort_uniq compare (List.init (rint st 5) (fun _ -> rint st 9)) in
        (* every sixth setfile names one of its files twice (adjacent or not) *)
-       add (XSetFile (if l <> [] && rint st 6 = 0 then (let d = List.nth l (rint st (List.length l)) in if rbool st then l @ [ d ] else d :: l) else l))
+       add (XSetFile (if l <> [] && rint st 6 = 0 then (let d = List.nth l (rint st (List.length l)) in
+                                                        match rint st 3 with 0 -> l @ [ d ] | 1 -> d :: l
+                                                                             | _ -> List.map (fun x -> if rbool st then d else x) l   (* some names replaced by d: same number of lines *)) else l))
      | 3 -> if !files <> [] then add (XDelete (List.nth !files (rint st (List.length !files))))
      | 4 | 5 -> add (XAdvance ((match rint st 4 with 0 -> 0 | 1 -> 1 | 2 -> rrange st 1 6 | _ -> rrange st 0 2), rint st 999999999))
      | 6 -> add (XReload (h ()))
@@ -338,6 +340,15 @@ let run ~tier ~seed ~only acc =
                 XSetFile [ 1; 2; 1 ]; XAdvance (2, 0); XReloadNow 0; XOpen (0, 0); XClose 2; XSetFile [ 2; 1; 1 ]; XAdvance (2, 0); XReloadNow 0; XOpen (0, 8); XClose 3; XDestroy 0 ]);
     (0, 0, 0, [ XCreate (3, 3); XSetFile [ 3; 3 ]; XDup (0, 0, 0, 0); XOpen (1, 0); XClose 0; XSetFile [ 3; 3 ]; XAdvance (2, 0); XReloadNow 1; XSetFile [ 3; 3 ]; XAdvance (2, 0); XReloadNow 0;
                 XOpen (0, 0); XOpen (1, 5); XClose 1; XClose 2; XDestroy 0; XDestroy 1 ]);
+    (* a handle that is stale (a sibling reloaded a changed setfile) AND due for its own reload, which then finds the setfile
+       unchanged: it must still be brought up to date - with a file added, and with a file removed (its reader is gone) *)
+    (0, 0, 0, [ XCreate (1, 1); XCreate (2, 2); XSetFile [ 1 ]; XOpen (0, 0); XClose 0; XDup (0, 0, 0, 0); XOpen (1, 0); XClose 1;
+                XSetFile [ 1; 2 ]; XAdvance (2, 0); XReloadNow 0; XAdvance (2, 0); XOpen (1, 0); XClose 2; XOpen (1, 8); XClose 3; XDestroy 1; XDestroy 0 ]);
+    (1, 0, 0, [ XCreate (1, 1); XCreate (2, 2); XSetFile [ 1; 2 ]; XDup (0, 1, 0, 0); XOpen (0, 0); XClose 0; XOpen (1, 0); XClose 1;
+                XSetFile [ 2 ]; XAdvance (3, 0); XReloadNow 0; XAdvance (3, 0); XOpen (1, 0); XClose 2; XAdvance (3, 0); XOpen (1, 5); XClose 3; XDestroy 0; XDestroy 1 ]);
+    (* a rewrite that drops a file and names a loaded one twice (same number of lines as loaded entries, nothing new to load) *)
+    (0, 0, 0, [ XCreate (1, 1); XCreate (2, 2); XCreate (3, 3); XSetFile [ 1; 2; 3 ]; XOpen (0, 0); XClose 0; XSetFile [ 1; 1; 3 ]; XAdvance (2, 0); XReloadNow 0; XOpen (0, 0); XClose 1;
+                XSetFile [ 3; 3; 3 ]; XAdvance (2, 0); XReloadNow 0; XOpen (0, 0); XClose 2; XDestroy 0 ]);
     (* mtbl_fileset_partition: filters of the handle are not consulted; a dup; after a reload request; with a non-table loaded (O8) *)
     (0, 1, 2, [ XCreate (1, 1); XCreate (2, 2); XCreate (3, 3); XCreate (4, 4); XSetFile [ 1; 2; 3; 4 ]; XOpen (0, 0); XClose 0; XPartition (0, 1); XDestroy 0 ]);
     (0, 0, 0, [ XCreate (1, 1); XCreate (2, 2); XCreate (5, 0); XSetFile [ 1; 2; 5 ]; XDup (0, 0, 1, 0); XOpen (1, 0); XCreate (4, 4); XSetFile [ 2; 4; 5 ]; XAdvance (2, 0); XReloadNow 0;
